@@ -53,6 +53,9 @@ let cmd_val s b =
   let reg = parse_tape s in
   Printf.bprintf b "val %d wf %d" (if check_alloc f32_eqb ssa reg then 1 else 0) (if ssa_wf ssa then 1 else 0)
 
+(* interval bounds on the wire: the sign of a zero bound is dropped (see harness fmt_interval) *)
+let ib (f : f32) : int = let b = int_of_f32 f in if b = 0x80000000 then 0 else b
+
 (* ---- C04: traces, simplification, chains ---------------------------------- *)
 let buf_trace b (t : tchoice list) =
   if trace_useful t then begin
@@ -79,7 +82,7 @@ let c04_level ?(jit=false) orc b tag (reg : f32 op list) nout (vars : nat list) 
       else begin
         if not jit then begin
           Printf.bprintf b " | i%d" tag;
-          List.iter (function Some i -> Printf.bprintf b " %d %d" (int_of_f32 i.lo) (int_of_f32 i.hi) | None -> ()) outs
+          List.iter (function Some i -> Printf.bprintf b " %d %d" (ib i.lo) (ib i.hi) | None -> ()) outs
         end;
         Some tr
       end in
@@ -192,6 +195,52 @@ let c20 s b =
       let ok = jit_trace_ok 0 tp given.(0) && (panic || ji_panic || jit_trace_ok 1 ti given.(1)) in
       if not ok then Printf.bprintf b " | jt bad"
 
+(* ---- C03: interval evaluation of every node, and through a transform matrix -- *)
+let c03 s b =
+  let arena = parse_arena s in
+  let nroots = next s in
+  let roots = times nroots (fun () -> next_nat s) in
+  let nvars = next s in
+  let bx = Array.of_list (times nvars (fun () -> let l = next_f32 s in let u = next_f32 s in (l, u))) in
+  let diffed = next s = 1 in
+  let with_tv = next s = 1 in
+  let mat = times 16 (fun () -> next_f32 s) in
+  if not diffed then Printf.bprintf b "iv x | tv x" else
+  let orc = libm_oracle in
+  match flatten arena roots with
+  | Err _ -> Printf.bprintf b "build err"
+  | Ok (t, vars) ->
+    match reg_tape_new (nat_of_int 255) t.t_ops with
+    | Err _ -> Printf.bprintf b "build err"
+    | Ok (rt, _) ->
+      let ins = List.map (fun v -> let (l, u) = bx.(int_of_nat v) in mk_interval orc l u) vars in
+      let (outs, _) = run_interval orc rt t.t_outputs ins in
+      Printf.bprintf b "iv";
+      if List.exists (fun o -> o = None) outs then Printf.bprintf b " panic"
+      else List.iter (function Some i -> Printf.bprintf b " %d %d" (ib i.lo) (ib i.hi) | None -> ()) outs;
+      (* Shape-level evaluation of the last root through the matrix *)
+      if not with_tv then Printf.bprintf b " | tv none" else begin
+        let last = List.nth roots (nroots - 1) in
+        match flatten arena [last] with
+        | Err _ -> Printf.bprintf b " | tv none"
+        | Ok (t1, vars1) ->
+          match reg_tape_new (nat_of_int 255) t1.t_ops with
+          | Err _ -> Printf.bprintf b " | tv none"
+          | Ok (rt1, _) ->
+            let iv k = let (l, u) = bx.(k) in mk_interval orc l u in
+            (match iv 0, iv 1, iv 2 with
+             | Some x, Some y, Some z ->
+               (match itransform (f32_fl orc) x y z mat with
+                | None -> Printf.bprintf b " | tv none"
+                | Some ((tx, ty), tz) ->
+                  let ins = List.map (fun v -> match int_of_nat v with 0 -> Some tx | 1 -> Some ty | _ -> Some tz) vars1 in
+                  let (outs, _) = run_interval orc rt1 t1.t_outputs ins in
+                  (match outs with
+                   | [Some i] -> Printf.bprintf b " | tv %d %d" (ib i.lo) (ib i.hi)
+                   | _ -> Printf.bprintf b " | tv none"))
+             | _ -> Printf.bprintf b " | tv none")
+      end
+
 (* ---- C15: bytecode ------------------------------------------------------------ *)
 let imm_bits (f : f32) : z = to_bits f
 let imm_of_bits (x : z) : f32 = of_bits x
@@ -258,6 +307,7 @@ let dispatch cmd s b =
   match cmd with
   | "sval" -> cmd_sval s b
   | "c15" -> c15 s b
+  | "c03" -> c03 s b
   | "bcval" -> cmd_bcval s b
   | "c20" -> c20 s b
   | "c04" -> c04 s b
